@@ -168,8 +168,15 @@ var errRecCause = fmt.Errorf("the innermost cause")
 
 func runC13Recursive(env *sim.Env) {
 	t := env.Tape
-	if t.Choose(4) == 3 {
+	switch t.Choose(6) {
+	case 3:
 		runC13Hook(env)
+		return
+	case 4:
+		runC13Quiet(env)
+		return
+	case 5:
+		runC13Content(env)
 		return
 	}
 	sh := recShape{
@@ -461,4 +468,262 @@ func runC13Hook(env *sim.Env) {
 	env.Res.Nontrivial = true
 	env.Res.Sig = fmt.Sprintf("hook:%016x", sim.HashString(desc))
 	env.Res.Sample = "layout-protects-its-hook " + desc + "-> " + want
+}
+
+// runC13Quiet: try bodies that consist of assignments only - `{{try}}{{ v = risky() }}{{catch}}…` is
+// the idiom - where the right-hand sides render as a side effect (includeIfExists, exec of a
+// template that writes) and a later assignment fails. Such a body "renders nothing" only
+// syntactically. A reference model says what reaches the writer.
+func runC13Quiet(env *sim.Env) {
+	t := env.Tape
+	type stmt struct {
+		src   string
+		out   string
+		fault bool
+	}
+	n := t.Range(1, 4)
+	var body []stmt
+	for i := 0; i < n; i++ {
+		v := fmt.Sprintf("q%d", i)
+		switch t.Choose(6) {
+		case 0:
+			body = append(body, stmt{src: fmt.Sprintf(`{{%s := includeIfExists("/piece%d.jet")}}`, v, i%2), out: fmt.Sprintf("[piece%d]", i%2)})
+		case 1:
+			body = append(body, stmt{src: fmt.Sprintf(`{{%s := includeIfExists("/absent.jet")}}`, v)})
+		case 2:
+			// exec renders nothing: it returns the template's return value
+			body = append(body, stmt{src: fmt.Sprintf(`{{%s := exec("/piece%d.jet")}}`, v, i%2)})
+		case 3:
+			body = append(body, stmt{src: fmt.Sprintf(`{{%s := "lit%d"}}`, v, i)})
+		case 4:
+			body = append(body, stmt{src: fmt.Sprintf(`{{%s := failif()}}`, v), fault: true})
+		case 5:
+			body = append(body, stmt{src: `{{outer = failif()}}`, fault: true})
+		}
+	}
+	if t.Bool(1, 5) {
+		// now and then the body is not quiet after all
+		body = append(body, stmt{src: "[txt]", out: "[txt]"})
+	}
+	nFaults := 0
+	for _, s := range body {
+		if s.fault {
+			nFaults++
+		}
+	}
+	failAt := 0
+	if nFaults > 0 {
+		failAt = t.Range(0, nFaults)
+	}
+	catchForm := t.Choose(3) // 0 no catch, 1 {{catch}}, 2 {{catch e}}
+	var src, bodyOut strings.Builder
+	failed, seen := false, 0
+	for _, s := range body {
+		src.WriteString(s.src)
+		if failed {
+			continue
+		}
+		if s.fault {
+			seen++
+			if seen == failAt {
+				failed = true
+				continue
+			}
+		}
+		bodyOut.WriteString(s.out)
+	}
+	want := "<A>"
+	if !failed {
+		want += bodyOut.String()
+	}
+	catch := ""
+	switch catchForm {
+	case 1:
+		catch = "{{catch}}[c]"
+		if failed {
+			want += "[c]"
+		}
+	case 2:
+		catch = "{{catch e}}[c:{{errid(e)}}]"
+		if failed {
+			want += fmt.Sprintf("[c:E%d]", failAt)
+		}
+	}
+	want += "<Z>|-|outer0"
+	files := map[string]string{
+		"/quiet.jet":  `{{outer := "outer0"}}<A>{{try}}` + src.String() + catch + `{{end}}<Z>|{{if isset(e)}}leak{{else}}-{{end}}|{{outer}}`,
+		"/piece0.jet": "[piece0]",
+		"/piece1.jet": "[piece1]",
+	}
+	pools, un := installPools(env, simrt.PoolAdversarial)
+	defer un()
+	set, _ := NewSet(files)
+	tm, err := set.GetTemplate("/quiet.jet")
+	if err != nil {
+		env.Res.Invalid = "quiet-body program does not parse: " + err.Error()
+		return
+	}
+	// an `outer = failif()` that does not fail assigns the empty string
+	for k, s := range body {
+		if strings.HasPrefix(s.src, "{{outer = ") {
+			idx := 0
+			for _, s2 := range body[:k+1] {
+				if s2.fault {
+					idx++
+				}
+			}
+			if !failed || idx < failAt {
+				want = strings.TrimSuffix(want, "outer0")
+			}
+		}
+	}
+	desc := fmt.Sprintf("program: failing fault point=%d of %d\n%s", failAt, nFaults, describeFiles(files))
+	for round := 0; round < 2; round++ {
+		calls := 0
+		vm := jet.VarMap{}
+		vm.SetFunc("failif", func(a jet.Arguments) reflect.Value {
+			calls++
+			if calls == failAt {
+				panic(fmt.Errorf("INJ-%d-", calls))
+			}
+			return reflect.ValueOf("")
+		})
+		vm.SetFunc("errid", func(a jet.Arguments) reflect.Value {
+			if mm := reInj.FindStringSubmatch(fmt.Sprint(a.Get(0).Interface())); mm != nil {
+				return reflect.ValueOf("E" + mm[1])
+			}
+			return reflect.ValueOf("E?")
+		})
+		var b strings.Builder
+		var xerr error
+		pc := sim.Guard(func() { xerr = tm.Execute(&b, vm, nil) })
+		pools.AbandonOutstanding()
+		got := b.String()
+		env.Event("quiet round %d -> %q err=%v", round, got, xerr)
+		switch {
+		case pc != nil:
+			env.Violate("re-entrant-try", "quiet:panic", "Execute panicked: %s\n%s", sim.Clip(pc.String(), 600), desc)
+		case xerr != nil:
+			env.Violate("error-contained", "quiet:escaped", "round %d: the error raised in the try body escaped: %v (rendered %s)\n%s", round, xerr, sim.Q(got), desc)
+		case got != want:
+			env.Violate("spliced-output", "quiet:body-leaked", "round %d rendered %s; expected %s\n%s", round, sim.Q(got), sim.Q(want), desc)
+		}
+	}
+	poolStats(env, pools)
+	env.Stat("probe:try_body_of_assignments_only_with_rendering_right_hand_sides", 1)
+	if failed {
+		env.Stat("fault:function_panics_with_error", 2)
+	}
+	env.Res.Nontrivial = nFaults > 0 || bodyOut.Len() > 0
+	env.Res.Sig = fmt.Sprintf("quiet:%016x", sim.HashString(desc))
+	env.Res.Sample = "assignments-only try body " + desc + "-> " + want
+}
+
+// runC13Content: the failure is raised inside yielded CONTENT (or in the block body right after it
+// yielded its content), below a try whose body declared variables - the unwinding crosses from the
+// block's scopes back into the caller's. Afterwards the caller's variables, and the content the
+// enclosing block itself was given, must be what they were. A reference model says what is rendered.
+func runC13Content(env *sim.Env) {
+	t := env.Tape
+	innerVar := t.Bool(2, 3)    // the try body declares a variable before the yield
+	panelVar := t.Bool(1, 2)    // the block declares a variable before it yields its content
+	catchForm := t.Choose(3)    // 0 none, 1 {{catch}}, 2 {{catch e}}
+	failAt := t.Choose(4)       // 0: nothing fails; 1: in the content; 2: in the block after the content; 3: in the try body after the yield
+	twice := t.Bool(1, 3)       // the try statement is executed twice (range)
+	nestedOuter := t.Bool(2, 3) // all of it happens inside a block that was itself given content
+	pol, polName := simrt.PoolAdversarial, "adversarial"
+	if t.Bool(1, 2) {
+		pol, polName = simrt.PoolLIFO, "lifo"
+	}
+	body := ""
+	if innerVar {
+		body += `{{inner := "i"}}`
+	}
+	body += `{{yield panel() content}}[c1]{{failif(1)}}[c2]{{end}}[ay]{{failif(3)}}`
+	catch, caught := "", ""
+	switch catchForm {
+	case 1:
+		catch, caught = "{{catch}}[caught]", "[caught]"
+	case 2:
+		catch, caught = "{{catch e}}[caught:{{errid(e)}}]", fmt.Sprintf("[caught:E%d]", failAt)
+	}
+	stmt := `{{try}}` + body + catch + `{{end}}`
+	pv, pvOut := "", ""
+	if panelVar {
+		pv, pvOut = `{{pv := "p"}}`, "p"
+	}
+	panel := `{{block panel()}}` + pv + `(panel:{{yield content}}{{failif(2)}}` + map[bool]string{true: "{{pv}}", false: ""}[panelVar] + `){{end}}`
+	one := "(panel:[c1][c2]" + pvOut + ")[ay]"
+	if failAt != 0 {
+		one = caught
+	}
+	n := 1
+	if twice {
+		n = 2
+		stmt = `{{range ints(0, 2)}}` + stmt + `{{end}}`
+	}
+	core := `{{user := "alice"}}<A>` + stmt + `<{{user}}>`
+	want := "<A>" + strings.Repeat(one, n) + "<alice>"
+	files := map[string]string{}
+	if nestedOuter {
+		files["/clib.jet"] = `{{block outer()}}` + core + `|{{yield content}}<Z>{{end}}` + panel
+		files["/cmain.jet"] = `{{import "/clib.jet"}}{{yield outer() content}}OC{{end}}|{{isset(user)}}`
+		want += "|OC<Z>|false"
+	} else {
+		files["/clib.jet"] = panel
+		files["/cmain.jet"] = `{{import "/clib.jet"}}` + core + `<Z>`
+		want += "<Z>"
+	}
+	pools, un := installPools(env, pol)
+	defer un()
+	set, _ := NewSet(files)
+	tm, err := set.GetTemplate("/cmain.jet")
+	if err != nil {
+		env.Res.Invalid = "content program does not parse: " + err.Error()
+		return
+	}
+	desc := fmt.Sprintf("program: failing point=%d (1 in the content, 2 in the block after its content, 3 in the try body after the yield) pool=%s\n%s", failAt, polName, describeFiles(files))
+	for round := 0; round < 2; round++ {
+		vm := jet.VarMap{}
+		vm.SetFunc("failif", func(a jet.Arguments) reflect.Value {
+			var k int
+			if v := a.Get(0); v.Kind() == reflect.Float64 {
+				k = int(v.Float())
+			} else {
+				k = int(v.Int())
+			}
+			if k == failAt {
+				panic(fmt.Errorf("INJ-%d-", k))
+			}
+			return reflect.ValueOf("")
+		})
+		vm.SetFunc("errid", func(a jet.Arguments) reflect.Value {
+			if mm := reInj.FindStringSubmatch(fmt.Sprint(a.Get(0).Interface())); mm != nil {
+				return reflect.ValueOf("E" + mm[1])
+			}
+			return reflect.ValueOf("E?")
+		})
+		var b strings.Builder
+		var xerr error
+		pc := sim.Guard(func() { xerr = tm.Execute(&b, vm, nil) })
+		pools.AbandonOutstanding()
+		got := b.String()
+		env.Event("content round %d -> %q err=%v", round, got, xerr)
+		switch {
+		case pc != nil:
+			env.Violate("re-entrant-try", "content:panic", "Execute panicked: %s\n%s", sim.Clip(pc.String(), 600), desc)
+		case xerr != nil:
+			env.Violate("error-contained", "content:escaped", "round %d: the error escaped the try statement (or something after it failed): %v (rendered %s)\n%s", round, xerr, sim.Q(got), desc)
+		case got != want:
+			env.Violate("spliced-output", "content:state-after-try", "round %d rendered %s; expected %s\n%s", round, sim.Q(got), sim.Q(want), desc)
+		}
+	}
+	poolStats(env, pools)
+	env.Stat("probe:failure_inside_yielded_content_below_a_try_that_declared_variables", 1)
+	if failAt != 0 {
+		env.Stat("fault:function_panics_with_error", int64(2*n))
+	}
+	env.Res.Nontrivial = true
+	env.Res.Sig = fmt.Sprintf("content:%016x", sim.HashString(desc))
+	env.Res.Sample = "failure in yielded content " + desc + "-> " + want
 }
